@@ -13,26 +13,35 @@ EXTENDS LieCalc
 VARIABLES reg, last, hist            \* hist[k] = exact matrix (reduced) computed by MATRIX products only
 
 Fams == 1..10
-Start(k) == CASE k \in 1..4 -> SO3Set(CASE k = 1 -> "quat" [] k = 2 -> "mrp" [] k = 3 -> "dcm" [] k = 4 -> "euler", QL1)
+QCh == { <<1,1,0,0>>, <<-1,0,1,1>>, <<1,1,1,1>>, <<0,0,1,0>>, <<2,1,0,-1>>, <<-1,-1,1,0>>, <<1,0,0,-1>>, <<0,1,1,0>> }
+Start(k) == CASE k \in 1..4 -> SO3Set(CASE k = 1 -> "quat" [] k = 2 -> "mrp" [] k = 3 -> "dcm" [] k = 4 -> "euler", QCh)
               [] k = 5 -> SE3Set("quat", QTri, TTri)
               [] k = 6 -> SE3Set("mrp", QTri, TTri)
               [] k = 7 -> SE23Set("quat", QTri, TTri)
               [] k = 8 -> SE23Set("mrp", QTri, TTri)
               [] k = 9 -> SE2Set(CTri, {<<1,0>>, <<-2,1>>})
               [] k = 10 -> ProdSet(2)
+(* registers 2 and 3 start from a handful of elements (initial-state generation is sequential in TLC);
+   the random walk provides the variety *)
+Few(X) == CASE X.g = "SO3" -> X.q \in {<<1,1,0,0>>, <<-1,0,1,1>>, <<0,1,1,0>>}
+            [] X.g = "SE3" -> X.q \in {<<1,1,0,0>>, <<-1,0,1,1>>} /\ X.p = <<1,-2,0>> /\ X.pd = 2
+            [] X.g = "SE23" -> X.q \in {<<1,1,0,0>>, <<-1,0,1,1>>} /\ X.p = <<1,-2,0>> /\ X.v = <<1,1,3>>
+            [] X.g = "SE2" -> X.cs \in {<<3,4,5>>, <<-4,-3,5>>} /\ X.p = <<-2,1>> /\ X.pd = 2
+            [] X.g = "Prod" -> X.fs[1].q \in {<<1,1,0,0>>, <<-1,1,1,0>>} /\ X.fs[2].x = <<3,1,1>>
 Small(X) == CASE X.g = "SO3" -> QNorm(X.q) <= 20000
-              [] X.g \in {"SE3", "SE23"} -> QNorm(X.q) <= 300 /\ X.pd <= 3000 /\ \A i \in 1..3 : Abs(X.p[i]) <= 30000
-              [] X.g = "SE2" -> X.cs[3] <= 3000 /\ X.pd <= 3000
-              [] X.g = "Prod" -> \A i \in 1..Len(X.fs) : (X.fs[i].g # "SO3" \/ QNorm(X.fs[i].q) <= 2000)
-SameRep(X, Y) == (X.g \notin {"SO3", "SE3", "SE23"}) \/ X.rep = Y.rep
+              [] X.g = "SE3" -> QNorm(X.q) <= 30 /\ X.pd <= 60 /\ \A i \in 1..3 : Abs(X.p[i]) <= 300
+              [] X.g = "SE23" -> QNorm(X.q) <= 30 /\ X.pd <= 60 /\ \A i \in 1..3 : Abs(X.p[i]) <= 300 /\ Abs(X.v[i]) <= 300
+              [] X.g = "SE2" -> X.cs[3] <= 200 /\ X.pd <= 200 /\ Abs(X.p[1]) <= 2000 /\ Abs(X.p[2]) <= 2000
+              [] X.g = "Prod" -> \A i \in 1..Len(X.fs) : (IF X.fs[i].g = "SO3" THEN QNorm(X.fs[i].q) <= 2000 ELSE TRUE)   \* (IF, not \/: inside an action TLC explores both disjuncts)
+SameRep(X, Y) == IF X.g \in {"SO3", "SE3", "SE23"} THEN X.rep = Y.rep ELSE TRUE
 
 InitCh == /\ tv = 0
-          /\ \E k \in Fams : \E a \in Start(k), b \in Start(k), c \in Start(k) :
+          /\ \E k \in Fams : \E a \in Start(k), b \in { X \in Start(k) : Few(X) }, c \in { X \in Start(k) : Few(X) } :
                 /\ Valid(a) /\ Valid(b) /\ Valid(c)
                 /\ reg = <<a, b, c>> /\ hist = <<RMRed(Mat(a)), RMRed(Mat(b)), RMRed(Mat(c))>>
                 /\ last = [op |-> "init", fam |-> k]
-Mul(i, j, k) == \E Z \in {Norm(Prod(reg[i], reg[j]))} :
-   /\ SameRep(reg[i], reg[j]) /\ Valid(Z) /\ Small(Z)
+Mul(i, j, k) == SameRep(reg[i], reg[j]) /\ \E Z \in {Norm(Prod(reg[i], reg[j]))} :
+   /\ Valid(Z) /\ Small(Z)
    /\ reg' = [reg EXCEPT ![k] = Z]
    /\ hist' = [hist EXCEPT ![k] = RMMul(hist[i], hist[j])]
    /\ last' = [op |-> "mul", i |-> i, j |-> j, k |-> k]
